@@ -67,10 +67,10 @@ Lemma good_if l (b : bool) m n : good l m -> good l n -> good l (if b then m els
 Proof. destruct b; auto. Qed.
 
 (* components *)
-Lemma do_regs_stk rs pt st : stk (do_regs rs pt st) = stk st /\ log (do_regs rs pt st) = log st.
+Lemma do_regs_stk rs pt n st : stk (do_regs rs pt n st) = stk st /\ log (do_regs rs pt n st) = log st.
 Proof.
   unfold do_regs. revert st. induction rs as [|r rs IH]; intros st; simpl; [auto|].
-  destruct (N.eqb (r_pt r) pt); [|apply IH].
+  destruct (reg_fires r pt n); [|apply IH].
   match goal with |- context [fold_left ?f rs ?s0] => destruct (IH s0) as [A B] end.
   rewrite A, B. simpl. auto.
 Qed.
@@ -82,11 +82,11 @@ Proof.
   simpl in T. injection T as ->. simpl. apply N.eqb_refl.
 Qed.
 
-Lemma hit_state_ext l sc pt aux st :
-  hd_error (stk st) = Some l -> ext st (do_regs (s_regs sc) pt (log_ev l pt aux st)).
+Lemma hit_state_ext l sc pt aux n st :
+  hd_error (stk st) = Some l -> ext st (do_regs (s_regs sc) pt n (log_ev l pt aux st)).
 Proof.
   intros T. pose proof (log_ev_ext l pt aux st T) as [S [new [L C]]].
-  destruct (do_regs_stk (s_regs sc) pt (log_ev l pt aux st)) as [A B].
+  destruct (do_regs_stk (s_regs sc) pt n (log_ev l pt aux st)) as [A B].
   split; [congruence|]. exists new. split; [congruence|exact C].
 Qed.
 
@@ -104,8 +104,8 @@ Lemma good_view_body l sc subrun :
   (forall sr, subrun = Some sr -> neutral sr) -> good l (view_body l sc subrun).
 Proof.
   intros Hs st st' r E T. unfold view_body in E.
-  pose proof (hit_state_ext l sc P_VIEW 0 st T) as X1.
-  set (st1 := do_regs (s_regs sc) P_VIEW (log_ev l P_VIEW 0 st)) in *.
+  pose proof (hit_state_ext l sc P_VIEW 0 0 st T) as X1.
+  set (st1 := do_regs (s_regs sc) P_VIEW 0 (log_ev l P_VIEW 0 st)) in *.
   destruct subrun as [sr|].
   - destruct (sr st1) as [st2 [v|k]] eqn:Es.
     + pose proof (Hs sr eq_refl _ _ _ Es) as X2.
@@ -265,10 +265,10 @@ Proof. intros. destruct (run_request_neutral sc ev l tw _ _ _ H) as [S _]. exact
 Definition cb_event (pt l : N) (st : state) (o : N) : pev :=
   mkEv pt l (N.of_nat (length (stk st))) (top_is l (stk st)) o.
 
-Lemma do_regs_none rs pt st : (forall r, In r rs -> r_pt r <> pt) -> do_regs rs pt st = st.
+Lemma do_regs_none rs pt n st : (forall r, In r rs -> r_pt r <> pt) -> do_regs rs pt n st = st.
 Proof.
-  unfold do_regs. revert st. induction rs as [|r rs IH]; intros st H; simpl; [reflexivity|].
-  destruct (N.eqb (r_pt r) pt) eqn:E; [apply N.eqb_eq in E; exfalso; exact (H r (or_introl eq_refl) E)|].
+  unfold do_regs, reg_fires. revert st. induction rs as [|r rs IH]; intros st H; simpl; [reflexivity|].
+  destruct (N.eqb (r_pt r) pt) eqn:E; [apply N.eqb_eq in E; exfalso; exact (H r (or_introl eq_refl) E)|]. cbn [andb].
   apply IH. intros r' Hr. apply H. right. exact Hr.
 Qed.
 
@@ -322,7 +322,7 @@ Proof.
   intros ev l sc tw subrun st st' r HF HR E. unfold invoke_request, finally in E.
   destruct (invoke_body ev l sc tw subrun st) as [st_mid r_mid] eqn:Eb.
   exists st_mid, r_mid. split; [reflexivity|].
-  destruct (fin_cbs_all l sc HF HR (S (length (fq st_mid))) st_mid (Nat.lt_succ_diag_r _)) as [st2 [E2 [S [Q [_ L]]]]].
+  destruct (fin_cbs_all l sc HF HR (S (length (fq st_mid) + pend 1 P_FIN_CB (s_regs sc) (nf st_mid))) st_mid ltac:(lia)) as [st2 [E2 [S [Q [_ L]]]]].
   unfold fin_loop in E. rewrite E2 in E. injection E as <- <-. auto.
 Qed.
 
@@ -345,7 +345,7 @@ Theorem response_callbacks_iff_response : forall ev l sc tw subrun st st_c rc,
 Proof.
   intros ev l sc tw subrun st st_c rc E. unfold invoke_body, bind. rewrite E. destruct rc as [v|k]; [|reflexivity].
   intros HF HR.
-  destruct (resp_cbs_all l sc HF HR (S (length (rq st_c))) st_c (Nat.lt_succ_diag_r _)) as [st_r [Er [S [Q [F L]]]]].
+  destruct (resp_cbs_all l sc HF HR (S (length (rq st_c) + pend 0 P_RESP_CB (s_regs sc) (nr st_c))) st_c ltac:(lia)) as [st_r [Er [S [Q [F L]]]]].
   unfold seq, bind, resp_loop. rewrite Er.
   destruct (hit0 l sc P_NEWRESP st_r) as [st_m [v2|k2]] eqn:Eh.
   - assert (v2 = 1%N) as ->.
@@ -360,14 +360,14 @@ Qed.
 (* ---- non-vacuity and the judge on concrete runs *)
 Local Open Scope N_scope.
 Definition ex_scn : scn :=
-  Scn true [mkFault P_VIEW K_PLAIN 0] [mkReg P_OVER_IN 3; mkReg P_VIEW 3]
-      (Sub false (Scn false [mkFault P_RENDERER K_HTTP 0] [mkReg P_NEWREQ 3] NoSub)).
+  Scn true [mkFault P_VIEW K_PLAIN 0] [mkReg P_OVER_IN 3 0; mkReg P_VIEW 3 0; mkReg P_FIN_CB 2 0; mkReg P_RESP_CB 1 0]
+      (Sub false (Scn false [mkFault P_RENDERER K_HTTP 0] [mkReg P_NEWREQ 3 0] NoSub)).
 
 Example ex_run_with_excview :
   let '(st, r) := run_top 1 ex_scn [7; 7] in
-  r = Ok P_EXCVIEW /\ stk st = [7; 7] /\ length (log st) = 28%nat
+  r = Ok P_EXCVIEW /\ stk st = [7; 7] /\ length (log st) = 30%nat
   /\ judge ex_scn 0 (log st) = true
-  /\ map e_aux (filter (is_pt P_FIN_CB) (lvl_log 0 (log st))) = [P_OVER_IN; P_VIEW]
+  /\ map e_aux (filter (is_pt P_FIN_CB) (lvl_log 0 (log st))) = [P_OVER_IN; P_VIEW; P_FIN_CB]
   /\ map e_aux (filter (is_pt P_FIN_CB) (lvl_log 1 (log st))) = [P_NEWREQ].
 Proof. vm_compute. repeat split; reflexivity. Qed.
 
